@@ -266,10 +266,10 @@ def r14_5(ctx):
 
 
 def run(ctx):
-    r14_1(ctx)
-    r14_2_3(ctx)
-    r14_4(ctx)
-    r14_5(ctx)
+    ctx.do(r14_1)
+    ctx.do(r14_2_3)
+    ctx.do(r14_4)
+    ctx.do(r14_5)
     from . import c10
-    c10.r10_4_units(ctx, modules=("mbox", "search"))
+    ctx.do(c10.r10_4_units, modules=("mbox", "search"))
     ctx.trust("frozen: RFC 3501 6.4.4 search key list; operator table BEFORE< ON== SINCE>= SENTBEFORE< SENTON== SENTSINCE>= LARGER> SMALLER<")
